@@ -18,6 +18,14 @@ CLAIMED = {
         ref='3/C01'),
 }
 
+CLAIMED['C02'] = dict(
+    text='For shapes <= 3 and fully symbolic entries: both real layouts (real_expand, Realp) equal the independently built left-multiplication '
+         'representation, are real-linear, multiplicative against the Hamilton oracle, map ^H to transpose and scale the squared Frobenius norm '
+         'by exactly 4; the complex adjoint is linear, multiplicative, *-preserving and scales by 2 (z3 over the reals). Round trips '
+         '(contract o expand, component split/merge, column-block split) are decided bit-precisely for every binary64 value incl. inf/NaN/-0 '
+         '(z3 FloatingPoint theory).',
+    ref='3/C02')
+
 NOT_YET = {}
 
 NA = {
